@@ -4,3 +4,5 @@ import CoreDhcp.Model.Alloc6
 import CoreDhcp.Model.Alloc4
 import CoreDhcp.Spec.IPCalc
 import CoreDhcp.Spec.Alloc
+import CoreDhcp.Model.Range
+import CoreDhcp.Spec.Range
